@@ -413,6 +413,8 @@ def shard(ctx: Ctx, sh: int, nshards: int, n: int) -> Stats:
             absent_cases(st)
         if sh == 1 % nshards:
             unreadable_cases(st, root)
+        if sh == 2 % nshards:
+            overlapping_requests(st, root)
 
         def one(case):
             if not case["requests"]:
@@ -469,6 +471,46 @@ def unreadable_cases(st: Stats, root: str):
                 st.fail(f"C18:unlisted:changes-on-unreadable-file-rewrote-it:{via}", {"unreadable": name, "via": via},
                         f"changes request on a file that cannot be read ({name}) {'reported success' if ok else 'failed'} and the file now holds {after[:160]!r} "
                         f"(before: {data[:160]!r}): every key the request did not name is gone")
+
+
+# ---------------------------------------------------------------------------------------------- generator (4): requests in flight together
+def overlapping_requests(st: Stats, root: str):
+    """Several changes requests on one file as tasks of one event loop (no base_hash): each names its own key, so every key
+    of every successful request — and every line of the original — must be in the final file."""
+    import asyncio
+
+    from octave_mcp.mcp.write import WriteTool
+
+    base = "===D===\nMETA:\n  TYPE::T\n  OWNER::alice\nKEEP::1\nNOTE::\"n\"\n===END===\n"
+    for n, reqs in ((2, [{"A0": 1}, {"A1": [1, 2]}]), (3, [{"A0": None}, {"NOTE": {"$op": "DELETE"}}, {"META.OWNER": "bob"}]), (4, [{f"A{i}": i} for i in range(4)])):
+        p = os.path.join(root, "overlap.oct.md")
+        with open(p, "w", encoding="utf-8") as fh:
+            fh.write(base)
+
+        async def go():
+            tool = WriteTool()
+            return await asyncio.gather(*[tool.execute(target_path=p, changes=r) for r in reqs], return_exceptions=True)
+
+        rs = asyncio.new_event_loop().run_until_complete(go())
+        final = open(p, encoding="utf-8").read()
+        st.case({"overlapping": n}, nontrivial=True, labels=["overlapping_requests"], key=n)
+        missing = []
+        for r, res in zip(reqs, rs):
+            if isinstance(res, dict) and res.get("status") == "success":
+                for k, v in r.items():
+                    if isinstance(v, dict) and v.get("$op") == "DELETE":
+                        if f"{k}::" in final:
+                            missing.append(f"{k} still present")
+                    elif k.startswith("META."):
+                        if f"  {k[5:]}::{v}" not in final:
+                            missing.append(f"{k} not set")
+                    elif f"\n{k}::" not in final:
+                        missing.append(f"{k} missing")
+        if "KEEP::1" not in final:
+            missing.append("KEEP lost")
+        if missing:
+            st.fail("C18:unlisted:overlapping-requests-undo-each-other", {"overlapping": n},
+                    f"{n} changes requests in flight together all report success, but the final file lacks what some of them named: {missing} | final={final!r}")
 
 
 # ---------------------------------------------------------------------------------------------- generator (2): Absent
@@ -543,6 +585,11 @@ def absent_cases(st: Stats):
 
 
 def check_case(case) -> list[Failure]:
+    if "overlapping" in case:
+        st = Stats()
+        with scratch_dir() as root:
+            overlapping_requests(st, root)
+        return [f for fl in st.failures.values() for f in fl if f.case == case]
     if "unreadable" in case:
         st = Stats()
         with scratch_dir() as root:
